@@ -13,7 +13,7 @@ import string
 from ..flow import flow_of, path_of
 from ..loader import FUNC, AnalysisError, const_fold, dotted, last_name, loc, short, walk_local
 from ..cfg import cfg_of
-from ..util import ASE, CP2K, ENGBASE, ENGPARTS, GROMACS, LAMMPS, TURTLE, kwarg, loops_of
+from ..util import ASE, CP2K, ENGBASE, ENGPARTS, GROMACS, LAMMPS, TURTLE, kwarg, loops_of, oriented
 from ..variants import B, K
 
 EXPLANATION = (
@@ -141,9 +141,19 @@ def r191(ctx):
     n9, n3 = len(_fields(b9)), len(_fields(b3))
     wr = tree.func(GROMACS, "write_gromos96_file")
     bpar = [p.arg for p in wr.args.args]
-    disp = [n for n in walk_local(wr) if isinstance(n, ast.If) and isinstance(n.test, ast.Compare) and isinstance(n.test.left, ast.Call) and last_name(n.test.left) == "len" and isinstance(n.test.ops[0], ast.Eq) and isinstance(n.test.comparators[0], ast.Constant) and n.test.comparators[0].value == 3]
-    if n9 == 9 and n3 == 3 and disp and "_G96_BOX_FMT_3" in ast.unparse(disp[0].body[0]) and "_G96_BOX_FMT" in ast.unparse(disp[0].orelse[0]):
-        ctx.ok(rid, disp[0], "g96 box: 3-field format for len(box) == 3, 9-field format otherwise")
+    # which format is used under which truth value of `len(box) == 3` (facts of the CFG, so that
+    # `if len(box) != 3` / inverted branches are the same thing)
+    wcfg = cfg_of(wr)
+    use = {}
+    for nm in [x for x in walk_local(wr) if isinstance(x, ast.Name) and x.id in ("_G96_BOX_FMT_3", "_G96_BOX_FMT")]:
+        for e, t, bn in wcfg.guards(wcfg.node_of(nm)):
+            o = oriented(e, lambda x: isinstance(x, ast.Call) and last_name(x) == "len")
+            if o is not None and isinstance(o[2], ast.Constant) and o[2].value == 3 and isinstance(o[1], (ast.Eq, ast.NotEq)):
+                is3 = t if isinstance(o[1], ast.Eq) else (not t)
+                use.setdefault(nm.id, set()).add(is3)
+    disp = [n for n in walk_local(wr) if isinstance(n, ast.If)]
+    if n9 == 9 and n3 == 3 and use.get("_G96_BOX_FMT_3") == {True} and use.get("_G96_BOX_FMT") == {False}:
+        ctx.ok(rid, disp[0] if disp else wr, "g96 box: 3-field format for len(box) == 3, 9-field format otherwise")
     else:
         ctx.bad(rid, wr, f"g96 box: formats have {n3}/{n9} fields or the len(box) dispatch does not select them consistently")
 
@@ -370,21 +380,34 @@ def r194(ctx):
             ctx.bad(rid, g, f"{fn} does not compute the frame's data size from TRR_DATA_ITEMS")
     se = tree.func(GROMACS, "swap_endian")
     mapping = {}
-    for n in walk_local(se):
-        if isinstance(n, ast.If) and isinstance(n.test, ast.Compare) and isinstance(n.test.comparators[0], ast.Constant) and n.body and isinstance(n.body[0], ast.Return) and isinstance(n.body[0].value, ast.Constant):
-            mapping[n.test.comparators[0].value] = n.body[0].value.value
+    scfg = cfg_of(se)
+    for r_ in [x for x in walk_local(se) if isinstance(x, ast.Return) and isinstance(x.value, ast.Constant)]:
+        for e, t, bn in scfg.guards(scfg.node_of(r_)):
+            o = oriented(e, lambda x: isinstance(x, ast.Name))
+            if t and o is not None and isinstance(o[1], ast.Eq) and isinstance(o[2], ast.Constant):
+                mapping[o[2].value] = r_.value.value
     if mapping == {">": "<", "<": ">"}:
         ctx.ok(rid, se, "swap_endian is an involution on {'>', '<'}")
     else:
         ctx.bad(rid, se, f"swap_endian maps {mapping}: not an involution on the two byte orders")
     for fn in ("read_matrix", "read_coord"):
         g = tree.func(GROMACS, fn)
-        ifs = [n for n in walk_local(g) if isinstance(n, ast.If) and path_of(n.test) == "double"]
-        ok = False
-        for n in ifs:
-            a, b = ast.unparse(n.body[0]), ast.unparse(n.orelse[0]) if n.orelse else ""
-            if a.rstrip("'\"").endswith("d") and b.rstrip("'\"").endswith("f") and a[:-2].replace("d", "") == b[:-2].replace("f", "") or (a.count("d'") and b.count("f'")):
-                ok = True
+        # the format string ends in d under `double` and in f otherwise (CFG facts: orientation of the if does not matter)
+        gcfg = cfg_of(g)
+        gp = [a_.arg for a_ in g.args.args]
+        seen_ = {}
+        for s_ in [x for x in walk_local(g) if isinstance(x, (ast.JoinedStr, ast.Constant)) and isinstance(getattr(x, "_parent", None), (ast.Assign, ast.Call, ast.keyword))]:
+            txt_ = ast.unparse(s_).rstrip("'\"")
+            if not txt_ or txt_[-1] not in "df":
+                continue
+            try:
+                nd_ = gcfg.node_of(s_)
+            except Exception:
+                continue
+            for e, t, bn in gcfg.guards(nd_):
+                if isinstance(e, ast.Name) and e.id in gp and "double" in e.id:
+                    seen_.setdefault(txt_[-1], set()).add(t)
+        ok = seen_.get("d") == {True} and seen_.get("f") == {False}
         if ok:
             ctx.ok(rid, g, f"{fn}: double -> ...d, single -> ...f with the same element count")
         else:
